@@ -1,48 +1,145 @@
 //! C04 — `Bfs`, `BfsDist` on the real code, every representation.
 //!
-//!   bfs_iter           <desc> <sources>  =>  [v …]
-//!   bfs_dist_iter      <desc> <sources>  =>  [[v w] …]
-//!   bfs_dist_distances <desc> <sources>  =>  [d …]          (usize::MAX printed in full)
+//!   bfs_iter           <desc> <sources> [shape]  =>  [v …]
+//!   bfs_dist_iter      <desc> <sources> [shape]  =>  [[v w] …]
+//!   bfs_dist_distances <desc> <sources> [shape]  =>  [d …]          (usize::MAX printed in full)
+//!   bfs_dist_distances_twice <desc> <sources> [shape]  =>  [d …] [d …]   (same object, called twice)
+//!   bfs_iter_repoll / bfs_dist_iter_repoll <desc> <sources> <k> <extra> [shape]
+//!                                              =>  [first ≤k items] [rest] [rest of a clone] [extra polls after None]
 //!
 //! `<desc>` is a digraph description (`graphs::Desc`), `<sources>` a list of vertex ids handed to
-//! `new` in that order.  A panic anywhere (building, `new`, iteration) is reported by `main.rs`
-//! as `panic`.
+//! `new` in that order, `[shape]` the KIND OF ITERATOR they are handed over as (default `slice`):
+//! exact-size ones (`slice`, `vec`) and lazy ones whose `size_hint()` lower bound is 0
+//! (`filter flat_map flatten from_fn take_while map_while skip_while scan`, and `range_filter` =
+//! `(0..order).filter(|u| sources.contains(u))`, i.e. ascending and duplicate-free).
+//! A panic anywhere (building, `new`, iteration) is reported by `main.rs` as `panic`.
 #![allow(clippy::all)]
 
 use crate::graphs::{self, Desc};
 use crate::rng::Rng;
 use crate::value::V;
 use crate::with_digraph;
-use graaf::{Bfs, BfsDist};
+use graaf::{Bfs, BfsDist, Order, OutNeighbors};
 use std::collections::BTreeSet;
 
-pub fn eval(op: &str, args: &[V]) -> Option<Vec<V>> {
-    match op {
-        "bfs_iter" => {
-            let [desc, srcs] = args else { return None };
-            let desc = Desc::parse(desc)?;
-            let srcs = srcs.as_usizes()?;
-            let out: Vec<usize> = with_digraph!(&desc, d => Bfs::new(&d, srcs.iter().copied()).collect());
-            Some(vec![V::us(out)])
+pub const SHAPES: [&str; 11] = [
+    "slice", "vec", "filter", "flat_map", "flatten", "from_fn", "take_while", "map_while", "skip_while", "scan",
+    "range_filter",
+];
+/// The lazy ones (lower size hint 0) that keep the order of `<sources>`.
+pub const LAZY: [&str; 8] = ["filter", "flat_map", "flatten", "from_fn", "take_while", "map_while", "skip_while", "scan"];
+
+/// Run `$body` with `$it` bound to the sources as an iterator of the named shape
+/// (`Iterator<Item = usize> + Clone`). `$n` = order (for `range_filter`).
+#[macro_export]
+macro_rules! with_sources {
+    ($shape:expr, $srcs:expr, $n:expr, $it:ident => $body:expr) => {{
+        let s__: &Vec<usize> = $srcs;
+        let n__: usize = $n;
+        match $shape {
+            "slice" => { let $it = s__.iter().copied(); $body }
+            "vec" => { let $it = s__.clone().into_iter(); $body }
+            "filter" => { let $it = s__.iter().copied().filter(|_| true); $body }
+            "flat_map" => { let $it = s__.iter().flat_map(|&u| std::iter::once(u)); $body }
+            "flatten" => { let $it = s__.iter().map(|&u| Some(u)).flatten(); $body }
+            "from_fn" => {
+                let mut i__ = 0usize;
+                let $it = std::iter::from_fn(move || { let r = s__.get(i__).copied(); i__ += 1; r });
+                $body
+            }
+            "take_while" => { let $it = s__.iter().copied().take_while(|_| true); $body }
+            "map_while" => { let $it = s__.iter().copied().map_while(Some); $body }
+            "skip_while" => { let $it = s__.iter().copied().skip_while(|_| false); $body }
+            "scan" => { let $it = s__.iter().copied().scan((), |_, u| Some(u)); $body }
+            "range_filter" => { let $it = (0..n__).filter(|u| s__.contains(u)); $body }
+            other => panic!("unknown source shape {other}"),
         }
-        "bfs_dist_iter" => {
-            let [desc, srcs] = args else { return None };
-            let desc = Desc::parse(desc)?;
-            let srcs = srcs.as_usizes()?;
-            let out: Vec<(usize, usize)> =
-                with_digraph!(&desc, d => BfsDist::new(&d, srcs.iter().copied()).collect());
-            Some(vec![V::pairs(out)])
+    }};
+}
+
+pub fn shape_of(v: Option<&V>) -> Option<&str> {
+    match v {
+        None => Some("slice"),
+        Some(v) => {
+            let a = v.as_atom()?;
+            SHAPES.contains(&a).then_some(a)
         }
-        "bfs_dist_distances" => {
-            let [desc, srcs] = args else { return None };
-            let desc = Desc::parse(desc)?;
-            let srcs = srcs.as_usizes()?;
-            let out: Vec<usize> =
-                with_digraph!(&desc, d => BfsDist::new(&d, srcs.iter().copied()).distances());
-            Some(vec![V::us(out)])
-        }
-        _ => None,
     }
+}
+
+enum Job {
+    Iter,
+    DistIter,
+    Distances,
+    DistancesTwice,
+    IterRepoll(usize, usize),
+    DistRepoll(usize, usize),
+}
+
+/// poll ≤ k items, clone, drain the original, drain the clone, poll the original `extra` more times
+pub fn repoll<I: Iterator + Clone>(mut it: I, k: usize, extra: usize, show: &dyn Fn(&I::Item) -> V) -> Vec<V> {
+    let mut first = vec![];
+    for _ in 0..k {
+        match it.next() {
+            Some(x) => first.push(show(&x)),
+            None => break,
+        }
+    }
+    let mut it2 = it.clone();
+    let mut rest = vec![];
+    while let Some(x) = it.next() {
+        rest.push(show(&x));
+    }
+    let mut rest2 = vec![];
+    while let Some(x) = it2.next() {
+        rest2.push(show(&x));
+    }
+    let late: Vec<V> = (0..extra).map(|_| it.next().map_or_else(V::none, |x| show(&x))).collect();
+    vec![V::L(first), V::L(rest), V::L(rest2), V::L(late)]
+}
+
+fn run_job<D, T>(d: &D, it: T, job: &Job) -> Vec<V>
+where
+    D: Order + OutNeighbors + Clone,
+    T: Iterator<Item = usize> + Clone,
+{
+    match job {
+        Job::Iter => vec![V::us(Bfs::new(d, it))],
+        Job::DistIter => vec![V::pairs(BfsDist::new(d, it))],
+        Job::Distances => vec![V::us(BfsDist::new(d, it).distances())],
+        Job::DistancesTwice => {
+            let mut b = BfsDist::new(d, it);
+            let a = b.distances();
+            let c = b.distances();
+            vec![V::us(a), V::us(c)]
+        }
+        Job::IterRepoll(k, extra) => repoll(Bfs::new(d, it), *k, *extra, &|&v| V::u(v)),
+        Job::DistRepoll(k, extra) => {
+            repoll(BfsDist::new(d, it), *k, *extra, &|&(v, w)| V::L(vec![V::u(v), V::u(w)]))
+        }
+    }
+}
+
+pub fn eval(op: &str, args: &[V]) -> Option<Vec<V>> {
+    let (job, rest) = match op {
+        "bfs_iter" => (Job::Iter, args.get(2..)?),
+        "bfs_dist_iter" => (Job::DistIter, args.get(2..)?),
+        "bfs_dist_distances" => (Job::Distances, args.get(2..)?),
+        "bfs_dist_distances_twice" => (Job::DistancesTwice, args.get(2..)?),
+        "bfs_iter_repoll" => (Job::IterRepoll(args.get(2)?.as_usize()?, args.get(3)?.as_usize()?), args.get(4..)?),
+        "bfs_dist_iter_repoll" => {
+            (Job::DistRepoll(args.get(2)?.as_usize()?, args.get(3)?.as_usize()?), args.get(4..)?)
+        }
+        _ => return None,
+    };
+    if rest.len() > 1 {
+        return None;
+    }
+    let shape = shape_of(rest.first())?;
+    let desc = Desc::parse(&args[0])?;
+    let srcs = args[1].as_usizes()?;
+    let n = desc.order();
+    Some(with_digraph!(&desc, d => crate::with_sources!(shape, &srcs, n, it => run_job(&d, it, &job))))
 }
 
 // ---------------------------------------------------------------------------------------
@@ -196,37 +293,242 @@ pub fn small_desc(repr: &str, n: usize, arcs: &[(usize, usize)]) -> Desc {
 
 const OPS: [&str; 3] = ["bfs_iter", "bfs_dist_iter", "bfs_dist_distances"];
 
+/// The trailing `[shape]` argument (with its leading blank): half of the cases keep the
+/// exact-size default, the others hand the sources over as a lazy iterator.
+/// `range_filter` enumerates ascending, so the sources are sorted for it.
+pub fn gen_shape(rng: &mut Rng, srcs: &mut Vec<usize>) -> String {
+    if rng.chance(1, 2) {
+        return String::new();
+    }
+    if rng.chance(1, 8) {
+        return " vec".to_string();
+    }
+    if rng.chance(1, 6) {
+        srcs.sort_unstable();
+        return " range_filter".to_string();
+    }
+    format!(" {}", rng.pick(&LAZY))
+}
+
+/// Large digraphs for the stress stream: sparse families of any order, or a given density.
+/// Returns the arcs and a vertex from which (for the path-like families) the search is deep.
+pub fn gen_large(rng: &mut Rng, n: usize, density: Option<(u64, u64)>) -> (Vec<(usize, usize)>, usize) {
+    let mut perm: Vec<usize> = (0..n).collect();
+    rng.shuffle(&mut perm);
+    let mut set: BTreeSet<(usize, usize)> = BTreeSet::new();
+    if let Some((a, b)) = density {
+        for u in 0..n {
+            for v in 0..n {
+                if u != v && rng.chance(a, b) {
+                    let _ = set.insert((u, v));
+                }
+            }
+        }
+    } else {
+        match rng.below(5) {
+            0 => {
+                for i in 0..n - 1 {
+                    let _ = set.insert((i, i + 1));
+                }
+                if rng.chance(1, 2) {
+                    let _ = set.insert((n - 1, 0));
+                }
+            }
+            1 => {
+                let k = 1 + rng.below(3);
+                for v in 1..n {
+                    let _ = set.insert(((v - 1) / k, v));
+                    if rng.chance(1, 8) {
+                        let _ = set.insert((v, (v - 1) / k));
+                    }
+                }
+            }
+            2 => {
+                let w = 2 + rng.below(30);
+                for v in 0..n {
+                    if (v + 1) % w != 0 && v + 1 < n {
+                        let _ = set.insert((v, v + 1));
+                    }
+                    if v + w < n {
+                        let _ = set.insert((v, v + w));
+                    }
+                    if v >= w && rng.chance(1, 4) {
+                        let _ = set.insert((v, v - w));
+                    }
+                }
+            }
+            3 => {
+                // complete layers of width w: every vertex has w candidate parents
+                let w = 2 + rng.below(14);
+                for u in 0..n {
+                    for v in (u / w + 1) * w..((u / w + 2) * w).min(n) {
+                        let _ = set.insert((u, v));
+                    }
+                }
+            }
+            _ => {
+                for u in 0..n {
+                    for _ in 0..1 + rng.below(3) {
+                        let v = rng.below(n);
+                        if v != u {
+                            let _ = set.insert((u, v));
+                        }
+                    }
+                }
+            }
+        }
+    }
+    let mut arcs: Vec<(usize, usize)> = set.into_iter().map(|(u, v)| (perm[u], perm[v])).collect();
+    rng.shuffle(&mut arcs);
+    (arcs, perm[0])
+}
+
+/// Sources for a large digraph: the deep start vertex and up to two more.
+pub fn large_sources(rng: &mut Rng, n: usize, start: usize) -> Vec<usize> {
+    let mut s = vec![start];
+    for _ in 0..rng.below(3) {
+        let v = rng.below(n);
+        if !s.contains(&v) {
+            s.push(v);
+        }
+    }
+    if rng.chance(1, 3) {
+        s.reverse();
+    }
+    s
+}
+
+pub const STRESS_ORDERS: [usize; 12] = [192, 255, 256, 257, 320, 363, 384, 511, 512, 513, 577, 600];
+/// (order, density, representation) of the few dense stress cases (lines of 0.3 - 2.5 MB)
+pub const STRESS_DENSE: [(usize, (u64, u64), &str); 7] = [
+    (257, (1, 1), "al"), (256, (1, 2), "mx"), (363, (1, 1), "wu"), (363, (1, 2), "al"),
+    (257, (1, 2), "el"), (512, (1, 4), "al"), (513, (1, 4), "mx"),
+];
+
+fn with_weights(rng: &mut Rng, repr: &str, arcs: Vec<(usize, usize)>, n: usize) -> Desc {
+    let k = arcs.len();
+    let mut d = Desc { repr: repr.to_string(), verts: (0..n).collect(), arcs, weights: vec![1; k] };
+    if repr == "wi" {
+        d.weights = (0..k).map(|_| i128::from(rng.range(-5, 9))).collect();
+    }
+    d
+}
+
+pub fn large_desc(rng: &mut Rng, repr: &str, n: usize, density: Option<(u64, u64)>) -> (Desc, Vec<usize>) {
+    let (arcs, start) = gen_large(rng, n, density);
+    let srcs = large_sources(rng, n, start);
+    (with_weights(rng, repr, arcs, n), srcs)
+}
+
+/// Out-of-distribution stream (only for `gharness gen C04 <seed> stress`), most promising first.
+fn gen_stress(rng: &mut Rng, emit: &mut dyn FnMut(String)) {
+    // (s1) every op with every source-iterator shape on small and medium digraphs, re-polling
+    for i in 0..400 {
+        let (desc, mut srcs) = gen_case(rng);
+        let shape = SHAPES[i % SHAPES.len()];
+        if shape == "range_filter" {
+            srcs.sort_unstable();
+        }
+        let d = desc.to_v();
+        let s = V::us(srcs.iter().copied());
+        for op in OPS {
+            emit(format!("{op} {d} {s} {shape}"));
+        }
+        let k = rng.below(desc.order() + 2);
+        emit(format!("bfs_iter_repoll {d} {s} {k} {} {shape}", 1 + rng.below(3)));
+        emit(format!("bfs_dist_iter_repoll {d} {s} {k} {} {shape}", 1 + rng.below(3)));
+        emit(format!("bfs_dist_distances_twice {d} {s} {shape}"));
+    }
+    // (s2) large sparse digraphs of the threshold orders, every representation
+    for round in 0..2 {
+        for (j, &n) in STRESS_ORDERS.iter().enumerate() {
+            let repr = graphs::ALL_REPRS[(j + round * 5) % 6];
+            let (desc, mut srcs) = large_desc(rng, repr, n, None);
+            let shape = gen_shape(rng, &mut srcs);
+            let d = desc.to_v();
+            let s = V::us(srcs.iter().copied());
+            emit(format!("bfs_iter {d} {s}{shape}"));
+            emit(format!("bfs_dist_iter {d} {s}{shape}"));
+            emit(format!("bfs_dist_distances {d} {s}{shape}"));
+            emit(format!("bfs_dist_iter_repoll {d} {s} {} 2{shape}", rng.below(n)));
+        }
+    }
+    // (s3) a few dense ones (long queues, every vertex has hundreds of candidate parents)
+    for &(n, dens, repr) in &STRESS_DENSE {
+        let (desc, srcs) = large_desc(rng, repr, n, Some(dens));
+        let d = desc.to_v();
+        let s = V::us(srcs.iter().copied());
+        emit(format!("bfs_dist_iter {d} {s}"));
+        emit(format!("bfs_iter_repoll {d} {s} {} 2 filter", n / 2));
+    }
+}
+
 pub fn gen(rng: &mut Rng, thorough: bool, emit: &mut dyn FnMut(String)) {
+    if crate::stress() {
+        gen_stress(rng, emit);
+        return;
+    }
     // (1) exhaustive small scope: all digraphs on <= 3 (quick) / <= 4 (thorough) vertices x all
-    //     source subsets; representation and op rotate (thorough: every op on <= 3 vertices).
+    //     source subsets; representation, op and source-iterator shape rotate (thorough: every op
+    //     on <= 3 vertices).
     let max_n = if thorough { 4 } else { 3 };
     for n in 1..=max_n {
         for_all_small(n, &mut |idx, arcs, srcs| {
             let repr = graphs::ALL_REPRS[idx % 6];
             let d = small_desc(repr, n, arcs).to_v();
             let s = V::us(srcs.iter().copied());
+            // ascending subsets: every shape (also `range_filter`) keeps this order
+            let shape = SHAPES[(idx / 3) % SHAPES.len()];
             if thorough && n <= 3 {
                 for op in OPS {
-                    emit(format!("{op} {d} {s}"));
+                    emit(format!("{op} {d} {s} {shape}"));
                 }
             } else {
-                emit(format!("{} {d} {s}", OPS[(idx / 6) % 3]));
+                emit(format!("{} {d} {s} {shape}", OPS[(idx / 6) % 3]));
             }
             // the order in which the sources are handed over is part of the input
             if srcs.len() >= 2 && (n <= 3 && thorough || idx % 4 == 0) {
                 let r = V::us(srcs.iter().rev().copied());
                 emit(format!("bfs_dist_iter {d} {r}"));
             }
+            if idx % 5 == 0 {
+                let k = idx % (n + 2);
+                emit(format!("bfs_iter_repoll {d} {s} {k} 2 {shape}"));
+                emit(format!("bfs_dist_iter_repoll {d} {s} {k} 1 {shape}"));
+            }
         });
     }
-    // (2) random: shared families + BFS families, orders 1..130, all representations
+    // (2) random: shared families + BFS families, orders 1..130, all representations; half of the
+    //     cases with a lazy source iterator; re-polling / second `distances()` on a fraction
     let n_random = if thorough { 20_000 } else { 1_000 };
     for _ in 0..n_random {
-        let (desc, srcs) = gen_case(rng);
+        let (desc, mut srcs) = gen_case(rng);
+        let shape = gen_shape(rng, &mut srcs);
         let d = desc.to_v();
         let s = V::us(srcs.iter().copied());
         for op in OPS {
-            emit(format!("{op} {d} {s}"));
+            emit(format!("{op} {d} {s}{shape}"));
+        }
+        if rng.chance(1, 4) {
+            let k = rng.below(desc.order() + 2);
+            let op = if rng.chance(1, 2) { "bfs_iter_repoll" } else { "bfs_dist_iter_repoll" };
+            emit(format!("{op} {d} {s} {k} {}{shape}", 1 + rng.below(3)));
+        }
+        if rng.chance(1, 8) {
+            emit(format!("bfs_dist_distances_twice {d} {s}{shape}"));
+        }
+    }
+    // (3) thorough: a sample of the large orders of the stress stream
+    if thorough {
+        for (j, &n) in STRESS_ORDERS.iter().enumerate() {
+            let repr = graphs::ALL_REPRS[j % 6];
+            let (desc, mut srcs) = large_desc(rng, repr, n, None);
+            let shape = gen_shape(rng, &mut srcs);
+            let d = desc.to_v();
+            let s = V::us(srcs.iter().copied());
+            for op in OPS {
+                emit(format!("{op} {d} {s}{shape}"));
+            }
         }
     }
 }
